@@ -191,6 +191,7 @@ def gen_model(st, log):
     """Go source -> Generated/Src.v (native build) and Generated/SrcWasm.v (js/wasm build of the library)"""
     gen_model_one(st, log, 'Src', 'gen_model.json', [], 'source_translation')
     gen_model_one(st, log, 'SrcWasm', 'gen_model_wasm.json', ['-wasm'], 'source_translation_wasm')
+    gen_model_one(st, log, 'SrcMain', 'gen_model_main.json', ['-main'], 'source_translation_binding')
 
 
 def gen_model_one(st, log, module, repname, flags, key):
